@@ -5,6 +5,7 @@ mod ids;
 mod node;
 mod oplog;
 mod pending;
+mod s3;
 mod seq;
 
 fn main() {
@@ -16,6 +17,7 @@ fn main() {
     let rest = &args[2..];
     match args[1].as_str() {
         "seq" => seq::main(rest),
+        "s3" => s3::main(rest),
         "ids" => ids::main(rest),
         "cluster" => cluster::main(rest),
         "pending" => pending::main(rest),
